@@ -469,6 +469,17 @@ func c12CLI(c *C12Case) string {
 	if string(res.Stderr) != want || res.Exit != 1 {
 		return fmt.Sprintf("the diagnostic on stderr is not the three documented lines\n got (exit %d): %q\n want (exit 1): %q", res.Exit, res.Stderr, want)
 	}
+	// the same with -o (to stdout, to a file, to a path that cannot be written): the error of the
+	// program is what is reported, in full
+	for _, out := range []string{"-", "out.json", "nodir/out.json"} {
+		res2, err := run.CLI(run.CLIOpts{Args: []string{"-o", out, "-f", "prog.jqawk"}, Files: map[string][]byte{"prog.jqawk": []byte(src)}})
+		if err != nil || res2.TimedOut {
+			continue
+		}
+		if string(res2.Stderr) != want || res2.Exit != 1 {
+			return fmt.Sprintf("with -o %s the diagnostic on stderr is not the three documented lines\n got (exit %d): %q\n want (exit 1): %q", out, res2.Exit, res2.Stderr, want)
+		}
+	}
 	return ""
 }
 
